@@ -63,6 +63,8 @@ pub struct CompDef {
     pub form: u8,
     /// 0 tuple struct, 1 named struct, 2 generic tuple struct
     pub shape: u8,
+    /// other attributes / doc comments placed after the storage attribute
+    pub trailing_attrs: u8,
 }
 
 #[derive(Clone, Debug, Serialize, Deserialize, Hash, PartialEq, Eq)]
@@ -120,7 +122,7 @@ fn type_def() -> impl Strategy<Value = TypeDef> {
 }
 
 fn comp_def() -> impl Strategy<Value = CompDef> {
-    (0u8..8, 0u8..5, 0u8..3).prop_map(|(storage, form, shape)| CompDef { storage, form, shape })
+    (0u8..8, 0u8..5, 0u8..3, 0u8..4).prop_map(|(storage, form, shape, trailing_attrs)| CompDef { storage, form, shape, trailing_attrs })
 }
 
 pub fn program(n_types: usize, n_comps: usize, values: u16) -> impl Strategy<Value = Program> {
@@ -259,7 +261,9 @@ fn ty_name(f: &FT, garg: &str) -> String {
 
 fn attrs(f: &FT) -> &'static str {
     match f {
-        FT::EntityRenamed | FT::U8Renamed => "#[convert_save_load_attr(serde(rename = \"RENAMED\"))] ",
+        FT::EntityRenamed => "#[convert_save_load_attr(serde(rename = \"RENAMED\"))] ",
+        // two forwarded attributes on one field: both must reach the data type
+        FT::U8Renamed => "#[convert_save_load_attr(serde(default))] #[convert_save_load_attr(serde(rename = \"RENAMED\"))] ",
         FT::OpaqueSkip => "#[convert_save_load_skip_convert] #[convert_save_load_attr(serde(skip, default))] ",
         FT::PlainSkip => "#[convert_save_load_skip_convert] ",
         _ => "",
@@ -504,7 +508,13 @@ fn print_comp(out: &mut String, i: usize, c: &CompDef) {
         3 => format!("#[storage(::specs::storage::{})]\n", STORAGES[s]),
         _ => format!("#[storage(::specs::storage::{}<Self>)]\n", STORAGES[s]),
     };
-    let _ = write!(out, "#[derive(Component, Default, Clone, Debug)]\n{}", attr);
+    let trailing = match c.trailing_attrs % 4 {
+        0 => "",
+        1 => "#[allow(dead_code)]\n",
+        2 => "/// a doc comment after the storage attribute\n",
+        _ => "#[allow(dead_code)]\n#[repr(C)]\n",
+    };
+    let _ = write!(out, "#[derive(Component, Default, Clone, Debug)]\n{}{}", attr, trailing);
     if null {
         let _ = writeln!(out, "pub struct {};", name);
     } else if generic {
